@@ -172,7 +172,7 @@ func NewLocation(ctx *Context, name string, state State, ctrl *Control) (*Locati
 
 	// ToDo: CacheExpires default duration.
 	// loc := Location{sync.RWMutex{}, name, false, nil, ctrl, state, ServiceStats{}, false}
-	loc := Location{sync.RWMutex{}, name, false, nil, nil, state, 0, ServiceStats{}, false, "", sync.RWMutex{}, sync.Mutex{}, nil}
+	loc := Location{sync.RWMutex{}, name, false, nil, ctrl, state, 0, ServiceStats{}, false, "", sync.RWMutex{}, sync.Mutex{}, nil}
 
 	return &loc, loc.init(ctx)
 }
